@@ -97,6 +97,7 @@ type Ctx struct {
 	idxTerms  []string
 	instDone  map[string]bool
 	inQuant   int
+	coverCalls bool
 }
 
 func newCtx(eng *Engine, mode Mode, fnKey string) *Ctx {
